@@ -16,7 +16,8 @@ PROP = "C09"
 IMPORTS = "From JV Require Import Lib.Base Model.C09ParserState Spec.C09Spec Corr.C09Judge."
 RULE = ("seeded histories of 1-12 calls over two parsers drawn from: config argument (+ --print_config), int/str options "
         "(optionally one required), class-typed option Base/SubA/SubB (plain and Callable[[int], Base], also given the "
-        "callable non-Base class Fac), a dataclass-typed option d: Optional[Data]; the class / Callable / dataclass options "
+        "callable non-Base class Fac, and c09_extra.SubX whose module only a class_path imports; default None or a class "
+        "spec WITH init_args), a dataclass-typed option d: Optional[Data]; the class / Callable / dataclass options "
         "either from add_argument or from a signature (add_class_arguments: non-empty per-action sub_add_kwargs); a "
         "parse-time link into the class' init_args (from an int option with the same type in every class; and, link "
         "family: from the group key g of a dataclass-typed argument, without compute_fn, into init_arg o of an option "
@@ -45,6 +46,9 @@ ASSUMPTIONS = [
     "parameters are only given after their class in the same argv; dict-like sources name a class only by its name",
     "answers are compared through a digest: equality of digests is taken for equality of answers",
     "single thread, single contextvars.Context per history",
+    "the fresh reference of a step runs in a pristine process that first imports the harness modules (c09_*) the "
+    "re-used side had imported before that step: import state is environment (it changes the known-subclasses list of "
+    "help texts), not state of jsonargparse",
     "the dataclass option d is Optional[Data] with Data(a: int = 0, b: int = 0) (no required field); dict-like sources "
     "give d as one mapping; at most one --cfg of a command line gives d and no field of d follows it on that line; a "
     "dict-like source names a class option once (class first, then its parameters); the linked init_arg o of the "
@@ -64,8 +68,15 @@ FLAGSETS_NO_SD = [f for f in FLAGSETS if "skip_default" not in f]
 
 
 def co3(co):
-    """a class option [name, callable] (base Base) or [name, callable, base]"""
+    """a class option [name, callable] (base Base), [name, callable, base] or [name, callable, base, default class]"""
     return co[0], co[1], (co[2] if len(co) > 2 else "Base")
+
+
+def co_default(co):
+    return co[3] if len(co) > 3 else None
+
+
+EXTRA = "c09_extra.SubX"  # a Base subclass in a module that only a class_path imports
 
 
 def pick_cls(rng, co):
@@ -74,10 +85,11 @@ def pick_cls(rng, co):
     if base == "LBase":
         return rng.choice(["WD", "WO", "WD", "WO", "WO", "Nope", "SubA"])
     return rng.choice(["SubA", "SubB", "SubA", "Nope", "Base", FAC if cal or rng.random() < 0.3 else "SubB",
-                       "WD" if rng.random() < 0.2 else "SubB"])
+                       "WD" if rng.random() < 0.2 else "SubB", EXTRA if rng.random() < 0.6 else "SubB"])
 
 
-PARAMS = {"SubA": ["a", "c"], "SubB": ["a", "b"], "Base": ["a"], "Nope": ["a"], "WD": ["a"], "WO": ["a"]}
+PARAMS = {"SubA": ["a", "c"], "SubB": ["a", "b"], "Base": ["a"], "Nope": ["a"], "WD": ["a"], "WO": ["a"],
+          EXTRA: ["a", "x", "x"]}
 
 
 def flagsets(decl):
@@ -93,7 +105,8 @@ def gen_decl(rng):
         root["opts"].append(["r", "int"])
         root["req"].append("r")
     if rng.random() < 0.6:
-        root["cls"].append(["model", False])
+        # the default of a plain class option: None, or a class spec WITH init_args (SubA(a=5, c=9) / SubB(a=5, b=hey))
+        root["cls"].append(["model", False, "Base", rng.choice([None, None, "SubA", "SubB"])])
         if rng.random() < 0.5:
             root["links"].append(["k", "model.init_args.a"])
     if rng.random() < 0.35:
@@ -102,6 +115,8 @@ def gen_decl(rng):
     # added from a signature (add_class_arguments(Holder)), so that action.sub_add_kwargs is a non-empty dict
     root["dc"] = rng.random() < 0.4
     root["sig"] = root["dc"] or (bool(root["cls"]) and rng.random() < 0.5)
+    if root["sig"]:   # signature-derived options keep the default None
+        root["cls"] = [co[:3] + [None] if len(co) > 3 else co for co in root["cls"]]
     # lk: a group g of two int fields (a dataclass-typed argument), an option lm typed LBase (subclasses WD(o: dict),
     # WO(o: Data)), and a parse-time link WITHOUT compute_fn from the group key to the class' init_args:
     # link_arguments("g", "lm.init_args.o")
@@ -230,7 +245,7 @@ def gen_argv(rng, decl):
             if y < 0.5:
                 toks.append(["opt", cn, cls])
                 if rng.random() < 0.6 and cls != "Nope":
-                    par = rng.choice(["a", "c", "b", "zz", "a", "z"])
+                    par = rng.choice(["a", "c", "b", "zz", "a", "z", "x"])
                     toks.append(["opt", cn + "." + par, val_for(rng, "str" if par == "b" else "int")])
             elif y < 0.7:
                 toks.append(["opt", cn + ".a", val_for(rng, "int")])
@@ -375,6 +390,8 @@ CB = {"root": {"cfg": True, "opts": [["k", "int"], ["s", "str"]], "req": [], "cl
       "subreq": False, "subs": []}
 MODEL = {"root": {"cfg": True, "opts": [["k", "int"], ["s", "str"]], "req": [], "cls": [["model", False]], "links": []},
          "subreq": False, "subs": []}
+DEFSPEC = {"root": {"cfg": True, "opts": [["k", "int"], ["s", "str"]], "req": [],
+                    "cls": [["model", False, "Base", "SubA"], ["cb", True]], "links": []}, "subreq": False, "subs": []}
 LINKED = {"root": {"cfg": True, "opts": [["k", "int"], ["s", "str"], ["g.a", "int"], ["g.b", "int"]], "req": [],
                    "cls": [["model", False], ["lm", False, "LBase"]], "links": [], "lk": True}, "subreq": False, "subs": []}
 DC = {"root": {"cfg": True, "opts": [["k", "int"], ["s", "str"]], "req": [], "cls": [], "links": [], "sig": True, "dc": True},
@@ -503,6 +520,28 @@ def scripted_cases():
         {"p": 0, "op": "instantiate", "items": [["lm", "WO"]]},
         {"p": 0, "op": "parse_args", "argv": [["opt", "lm", "WD"], ["flag", "print_config"]]},
         {"p": 0, "op": "parse_args", "argv": [["opt", "lm", "WO"]]}]))
+    # a class option whose default is a class spec WITH init_args: successful calls of every kind select other
+    # classes (which do not accept all of those init_args); the calls afterwards must still see the full default
+    hs.append(([DEFSPEC, PLAIN], [
+        {"p": 0, "op": "get_defaults"},
+        {"p": 0, "op": "parse_string", "items": [["model", "SubB"]]},
+        {"p": 0, "op": "get_defaults"},
+        {"p": 0, "op": "parse_env", "items": [["k", "3"]]},
+        {"p": 0, "op": "parse_object", "items": [["model", "Base"]]},
+        {"p": 0, "op": "parse_args", "argv": []},
+        {"p": 0, "op": "parse_args", "argv": [["opt", "model", "SubB"], ["opt", "model.b", "q"]]},
+        {"p": 0, "op": "parse_args", "argv": [["opt", "model.c", "3"]]},
+        {"p": 0, "op": "parse_args", "argv": [["flag", "print_config"]]},
+        {"p": 0, "op": "parse_string", "items": [["model.c", "2"]]}]))
+    # help texts list the known subclasses: a class_path that imports a module makes the list grow in mid-history
+    hs.append(([DEFSPEC, MODEL], [
+        {"p": 0, "op": "parse_args", "argv": [["flag", "help"]]},
+        {"p": 1, "op": "parse_args", "argv": [["flag", "help"]]},
+        {"p": 0, "op": "parse_args", "argv": [["opt", "model", EXTRA], ["opt", "model.x", "3"]]},
+        {"p": 0, "op": "parse_args", "argv": [["flag", "help"]]},
+        {"p": 1, "op": "parse_args", "argv": [["flag", "help"]]},
+        {"p": 1, "op": "parse_object", "items": [["model", EXTRA]]},
+        {"p": 0, "op": "parse_args", "argv": [["opt", "cb.help", "SubA"]]}]))
     # a request consumed by an EMPTY --cfg inside parse_args dumps nothing (dump_kwargs stays unset)
     hs.append(([plain, subs], [
         {"p": 0, "op": "parse_args", "argv": [["flag", "print_config"], ["opt", "k", "5"], ["cfg", []], ["opt", "k", "bad"]]},
@@ -532,28 +571,23 @@ def generate(rng, tier):
 
 def search(rng, tier, broken):
     """Failing-input search when the tie (or a proof) broke although no listed-free failure showed up in the main run:
-    fresh histories in rounds, judged like the main run; the first case whose real answer differs from the fresh
-    parser's answer and that is not one of the listed findings is the failing input."""
-    import time
-
+    ONE fresh quick-sized batch of histories, judged like the main run (bounded: about the cost of a quick run); the
+    first case whose real answer differs from the fresh parser's answer and that is not a listed finding is the
+    failing input.  A tie broken by unexplained state alone is reported without an input."""
     known = framework.load_known_findings(PROP)
     mod = sys.modules[__name__]
-    t0 = time.time()
-    for rnd in range(10):
-        if time.time() - t0 > 120:   # bounded: a tie broken by unexplained state alone is reported without an input
-            break
-        hists = []
-        for _ in range(120):
-            decls = [gen_decl(rng), gen_decl(rng)]
-            ln = rng.choice([2, 3, 4, 6, 8, 10, 12])
-            hists.append((decls, [gen_op(rng, decls) for _ in range(ln)]))
-        cases = [{"parsers": d, "ops": ops, "at": i} for d, ops in hists for i in range(1, len(ops))]
-        obs = observe(cases)
-        _, bad_in, bad_out = framework.judge_cases(mod, cases, obs, tag="x%d" % rnd)
-        bad = sorted(set(bad_in) | {i for i, k in bad_out if FINDING_CLASSES.get(k) not in known})
-        if bad:
-            i = min(bad, key=lambda j: cases[j]["at"])
-            return {"case": cases[i], "observed": obs[i], "explain": describe(cases[i], obs[i])}
+    hists = []
+    for _ in range(110):
+        decls = [gen_decl(rng), gen_decl(rng)]
+        ln = rng.choice([2, 3, 4, 6, 8, 10])
+        hists.append((decls, [gen_op(rng, decls) for _ in range(ln)]))
+    cases = [{"parsers": d, "ops": ops, "at": i} for d, ops in hists for i in range(1, len(ops))]
+    obs = observe(cases)
+    _, bad_in, bad_out = framework.judge_cases(mod, cases, obs, tag="x")
+    bad = sorted(set(bad_in) | {i for i, k in bad_out if FINDING_CLASSES.get(k) not in known})
+    if bad:
+        i = min(bad, key=lambda j: cases[j]["at"])
+        return {"case": cases[i], "observed": obs[i], "explain": describe(cases[i], obs[i])}
     return None
 
 
@@ -598,7 +632,8 @@ def g_pdecl(pd):
         g_bool(pd["cfg"]),
         g_list([g_pair(g_str(n), g_kind(k)) for n, k in pd["opts"]], "(str * kind)"),
         g_list([g_str(r) for r in pd["req"]], "str"),
-        g_list(["{| co_name := %s; co_base := %s; co_callable := %s |}" % (g_str(co3(co)[0]), g_str(co3(co)[2]), g_bool(co3(co)[1]))
+        g_list(["{| co_name := %s; co_base := %s; co_callable := %s; co_default := %s |}" % (
+            g_str(co3(co)[0]), g_str(co3(co)[2]), g_bool(co3(co)[1]), g_opt(None if co_default(co) is None else g_str(co_default(co))))
                 for co in pd["cls"]], "copt"),
         g_bool(bool(pd.get("dc"))))
 
